@@ -3190,6 +3190,7 @@ impl Zeroconf {
         let mut resolved: HashSet<String> = HashSet::new();
         let mut unresolved: HashSet<String> = HashSet::new();
         let mut removed_instances = HashMap::new();
+        let mut no_longer_resolved: HashSet<String> = HashSet::new();
 
         let now = current_time_millis();
 
@@ -3222,7 +3223,10 @@ impl Zeroconf {
                     call_service_listener(&self.service_queriers, ty_domain, event);
                 } else {
                     debug!("Resolved service is not valid: {instance}");
-                    if self.resolved.remove(dns_ptr.alias()) {
+                    // (the instance may be listed under more than one browsed type - its
+                    // type and a subtype: every one of them is told, hence `contains`)
+                    if self.resolved.contains(dns_ptr.alias()) {
+                        no_longer_resolved.insert(instance.to_string());
                         removed_instances
                             .entry(ty_domain.to_string())
                             .or_insert_with(HashSet::new)
@@ -3235,6 +3239,10 @@ impl Zeroconf {
                     }
                 }
             }
+        }
+
+        for instance in no_longer_resolved.drain() {
+            self.resolved.remove(&instance);
         }
 
         for instance in resolved.drain() {
